@@ -397,6 +397,7 @@ func elemKey(elem types.Type) string {
 // ---------- state ----------
 
 type State struct {
+	facts   []*Term // always-valid facts (type invariants of values read from memory); hoisted out of spec evaluation
 	pc      []*Term
 	heaps   map[string]*Term
 	base    int // index of the current allocation base symbol a<base>
@@ -412,6 +413,7 @@ func NewState() *State {
 func (s *State) Clone() *State {
 	n := &State{base: s.base, allocN: s.allocN}
 	n.pc = append([]*Term(nil), s.pc...)
+	n.facts = append([]*Term(nil), s.facts...)
 	n.heaps = make(map[string]*Term, len(s.heaps))
 	for k, v := range s.heaps {
 		n.heaps[k] = v
@@ -441,7 +443,23 @@ func (s *State) Assume(t *Term) {
 	s.pc = append(s.pc, t)
 }
 
-func (s *State) PC() *Term { return And(s.pc...) }
+func (s *State) PC() *Term { return And(And(s.pc...), And(s.facts...)) }
+
+// AssumeFact records a fact that holds in every reachable state (a type invariant), independent of the path.
+func (s *State) AssumeFact(t *Term) {
+	if t == True {
+		return
+	}
+	if t == False {
+		s.dead = true
+	}
+	for _, p := range s.facts {
+		if p == t {
+			return
+		}
+	}
+	s.facts = append(s.facts, t)
+}
 
 // knows reports whether t (or its negation) is syntactically implied by the path condition.
 func (s *State) knows(t *Term) (val, ok bool) {
@@ -453,6 +471,14 @@ func (s *State) knows(t *Term) (val, ok bool) {
 	}
 	nt := Not(t)
 	for _, p := range s.pc {
+		if p == t {
+			return true, true
+		}
+		if p == nt {
+			return false, true
+		}
+	}
+	for _, p := range s.facts {
 		if p == t {
 			return true, true
 		}
